@@ -159,6 +159,38 @@ def run_case(c):
     r["names"] = [tr.name for tr in comp.tracks]
     r["instrs"] = [("" if tr.instrument is None else str(tr.instrument.name)) for tr in comp.tracks]
     R.append(r)
+    # the same program with ONE Bar object wherever a bar's key, meter and content recur in a track (a repeated phrase
+    # added to the track twice): what is shown for a bar depends on the bars around it, not on the object
+    import json as _json
+    sig = lambda b: _json.dumps(b, sort_keys=True)
+    if any(len({sig(b) for b in t["bars"]}) < len(t["bars"]) for t in p["tracks"]):
+        comp4 = mk_composition(p)
+        if built_ok(p, comp4):
+            for t4, tr4 in zip(p["tracks"], comp4.tracks):
+                first = {}
+                for j, b4 in enumerate(t4["bars"]):
+                    k4 = sig(b4)
+                    if k4 in first:
+                        tr4.bars[j] = tr4.bars[first[k4]]
+                    else:
+                        first[k4] = j
+            r = call("ly_composition", {"bars": "one object where content recurs"}, lambda: lex(lilypond.from_Composition(comp4)))
+            r["prog"] = p
+            r["tokens"] = r["out"] if r["ok"] else []
+            r["out"] = 0
+            R.append(r)
+            r = call("ly_track", {"bars": "one object where content recurs"}, lambda: lex(lilypond.from_Track(comp4.tracks[0])))
+            r["prog"] = dict(p, tracks=[p["tracks"][0]])
+            r["tokens"] = r["out"] if r["ok"] else []
+            r["out"] = 0
+            R.append(r)
+            r = call("xml_composition", {"bars": "one object where content recurs"}, lambda: parse_xml(musicxml.from_Composition(comp4)))
+            r["prog"] = p
+            r["xml"] = r["out"] if r["ok"] else {}
+            r["out"] = 0
+            r["names"] = [tr.name for tr in comp4.tracks]
+            r["instrs"] = [("" if tr.instrument is None else str(tr.instrument.name)) for tr in comp4.tracks]
+            R.append(r)
     # the same program with the first and last note of every chord exchanged by item assignment (a container keeps the order it
     # is given that way): the export follows the container as stored
     if any(len(e["notes"]) >= 2 for t in p["tracks"] for b in t["bars"] for e in b["entries"]):
